@@ -448,6 +448,21 @@ func checkWire(c *core.Check, which string) {
 		specOf[id] = a
 		jobs = append(jobs, a.Job(id))
 		groups = append(groups, g)
+		// the same package through the pairing it offers itself: API.LocalClient() (every third call again; there is
+		// no recording transport in between, so only Call / Parse / Respond / Return are observed)
+		gl := g
+		gl.Local, gl.Wire = true, nil
+		for i, wc := range g.Wire {
+			if i%3 != 0 || wc.InjectStatus != 0 { // (injecting a status needs the recording transport)
+				continue
+			}
+			caseN++
+			lc := wc
+			lc.ID = fmt.Sprintf("l%d", caseN)
+			gl.Wire = append(gl.Wire, lc)
+			metaOf[lc.ID] = metaOf[wc.ID]
+		}
+		groups = append(groups, gl)
 	}
 	for start := 0; start < len(good); start += perPkg {
 		end := start + perPkg
